@@ -36,6 +36,7 @@ from .vhdl_sim import Design
 HEAD = '''
 import cohdl
 from cohdl import std, Bit, BitVector, Unsigned, Port, Signal
+from cohdl.std._context import at_end_of_context
 
 class W(cohdl.Entity):
     clk = Port.input(Bit)
@@ -253,6 +254,128 @@ SAME = {
 ''',
 }
 
+
+# ---------------------------------------------------------------------------------------------------
+# WHERE the operations are issued from.  The same producer / consumer code is placed
+#   body    in the process body                       helper  in nested plain helper functions
+#   end     in a callback registered with at_end_of_context (the mechanism SyncFlag / Fifo use themselves)
+#   nested  in a helper called by an end-of-context callback that is registered by another end-of-context callback
+#   before  in an independent std.Executor of mode immediate_before      after  ... immediate_after
+# All of them run once per activation of the owning context, so the Lean step model applies unchanged.
+# kind "site":     variant = what|psite|csite|obs   (two contexts)
+# kind "samesite": the same in ONE context (one process; order = producer part first)
+# kind "exec":     the public start/exec protocol (std.Executor.make_after / make_before + `await ex.exec()`):
+#                  extra latency, willingness latched -> exactly-once monitor without the immediacy checks, no Lean tie
+# obs = in: the is_set()/is_clear() observation is part of the placed code (first touch of the object happens there)
+#       body: the observation stays in the process body
+# ---------------------------------------------------------------------------------------------------
+
+SITES = ("body", "helper", "end", "nested", "before", "after")
+
+OBS_CODE = {
+    "p": ["with cohdl.always:", "    self.p_set <<= obj.is_set()", "    self.p_clear <<= obj.is_clear()"],
+    "c": ["with cohdl.always:", "    self.c_set <<= obj.is_set()", "    self.c_clear <<= obj.is_clear()"],
+}
+ACT_CODE = {
+    ("flag", "p"): ["if self.try_s:", "    if obj.is_clear():", "        self.acc <<= ~self.acc", "    obj.set()"],
+    ("flag", "c"): ["if self.willing:", "    if obj.is_set():", "        self.rcv <<= ~self.rcv", "        obj.clear()"],
+    ("mbox", "p"): ["if self.try_s:", "    if obj.is_clear():", "        self.acc <<= ~self.acc", "        obj.send(self.data_in)"],
+    ("mbox", "c"): ["if self.willing:", "    if obj.is_set():", "        self.rx_data <<= obj.data()",
+                    "        self.rcv <<= ~self.rcv", "        obj.clear()"],
+}
+
+
+def _ind(lines, n):
+    return "".join(" " * n + l + "\n" for l in lines)
+
+
+def site_parts(what, side, site, obs):
+    """-> (definitions placed before the process, executors for the decorator, lines of the process body)"""
+    n = "prod" if side == "p" else "cons"
+    act = ACT_CODE[(what, side)]
+    code = (OBS_CODE[side] if obs == "in" or site == "body" else []) + act
+    body_obs = [] if obs == "in" or site == "body" else OBS_CODE[side]
+    if site == "body":
+        return "", [], code
+    if site == "helper":
+        d = f"        def {n}_ops():\n{_ind(code, 12)}\n        def {n}_outer():\n            {n}_ops()\n"
+        return d, [], body_obs + [f"{n}_outer()"]
+    if site == "end":
+        d = f"        async def {n}_end():\n{_ind(code, 12)}"
+        return d, [], body_obs + [f"at_end_of_context({n}_end)"]
+    if site == "nested":
+        d = (f"        def {n}_ops():\n{_ind(code, 12)}\n        async def {n}_inner():\n            {n}_ops()\n\n"
+             f"        async def {n}_outer():\n            at_end_of_context({n}_inner)\n")
+        return d, [], body_obs + [f"at_end_of_context({n}_outer)"]
+    mode = {"before": "make_independent_before", "after": "make_independent_after"}[site]
+    d = f"        async def {n}_run():\n{_ind(code, 12)}\n        {n}_ex = std.Executor.{mode}({n}_run, None)\n"
+    return d, [f"{n}_ex"], body_obs
+
+
+def _process(ctx, name, execs, body, is_async=False):
+    deco = f"@{ctx}(executors=[{', '.join(execs)}])" if execs else f"@{ctx}"
+    return f"\n        {deco}\n        {'async ' if is_async else ''}def {name}():\n{_ind(body or ['pass'], 12)}"
+
+
+def site_body(kind, variant):
+    what, ps, cs, obs = variant.split("|")
+    dp, ep, bp = site_parts(what, "p", ps, obs)
+    dc, ec, bc = site_parts(what, "c", cs, obs)
+    if kind == "samesite":
+        return "\n" + dp + "\n" + dc + _process("ctx_p", "both", ep + ec, bp + bc)
+    return "\n" + dp + _process("ctx_p", "prod", ep, bp) + "\n" + dc + _process("ctx_c", "cons", ec, bc)
+
+
+EXEC_P = {
+    "body": MBOX_P["guard"],
+    "exec": '''
+        async def post():
+            await obj.is_clear()
+            obj.send(self.data_in)
+            self.acc <<= ~self.acc
+
+        poster = std.Executor.make_before(post, None)
+
+        @ctx_p(executors=[poster])
+        async def prod():
+            with cohdl.always:
+                self.p_set <<= obj.is_set()
+                self.p_clear <<= obj.is_clear()
+            await self.try_s
+            await poster.exec()
+''',
+}
+EXEC_C = {
+    "body": MBOX_C["guard"],
+    # the consumer side of the mailbox is first (and only) used inside an after-executor
+    "exec": '''
+        async def fetch():
+            self.rx_data <<= await obj.receive()
+            self.rcv <<= ~self.rcv
+
+        fetcher = std.Executor.make_after(fetch, None)
+
+        @ctx_c
+        async def cons():
+            with cohdl.always:
+                self.c_set <<= obj.is_set()
+                self.c_clear <<= obj.is_clear()
+            await self.willing
+            await fetcher.exec()
+''',
+}
+
+
+def is_same(cfg):
+    return cfg[0] in ("same", "samesite")
+
+
+def relaxed(cfg):
+    """start/exec protocol: attempts and willingness are latched by the design, so the monitor cannot demand
+    an immediate reaction"""
+    return cfg[0] == "exec"
+
+
 CTX2 = "std.SequentialContext(std.Clock(self.clk), step_cond=lambda: self.en_c)"
 
 
@@ -265,16 +388,25 @@ def make_source(cfg, dw):
     elif kind == "mbox":
         obj = f"std.Mailbox[Unsigned[{dw}]](tx_delay={txd}, rx_delay={rxd})"
         body = MBOX_P[variant] + MBOX_C[variant]
+    elif kind in ("site", "samesite"):
+        what = variant.split("|")[0]
+        obj = (f"std.SyncFlag(tx_delay={txd}, rx_delay={rxd})" if what == "flag"
+               else f"std.Mailbox[Unsigned[{dw}]](tx_delay={txd}, rx_delay={rxd})")
+        body = site_body(kind, variant)
+    elif kind == "exec":
+        obj = f"std.Mailbox[Unsigned[{dw}]](tx_delay={txd}, rx_delay={rxd})"
+        ps, cs = variant.split("|")
+        body = EXEC_P[ps] + EXEC_C[cs]
     else:
         what = variant.split(":")[0]
         obj = (f"std.SyncFlag(tx_delay={txd}, rx_delay={rxd})" if what == "flag"
                else f"std.Mailbox[Unsigned[{dw}]](tx_delay={txd}, rx_delay={rxd})")
         body = SAME[variant]
-    return HEAD.format(DW=dw, CTX_C=("ctx_p" if kind == "same" else CTX2), OBJ=obj) + body
+    return HEAD.format(DW=dw, CTX_C=("ctx_p" if kind in ("same", "samesite") else CTX2), OBJ=obj) + body
 
 
 def has_payload(cfg):
-    return cfg[0] == "mbox" or (cfg[0] == "same" and cfg[1].startswith("mbox"))
+    return cfg[0] in ("mbox", "exec") or (cfg[0] in ("same", "site", "samesite") and cfg[1].startswith("mbox"))
 
 
 def guard_of(cfg):
@@ -283,7 +415,7 @@ def guard_of(cfg):
         return False
     if cfg[0] == "mbox":
         return cfg[1] != "noguard"
-    return cfg[1].startswith("mbox")
+    return cfg[0] == "exec" or cfg[1].startswith("mbox")
 
 
 # ---------------------------------------------------------------------------------------------------
@@ -323,7 +455,7 @@ def observe(d):
 def alphabet(cfg, payloads):
     ps = ["-", "i"] + [f"s{v}" for v in payloads]
     cs = ["-", "u", "w"]
-    if cfg[0] == "same":
+    if is_same(cfg):
         return ["-:-"] + [f"{p}:{c}" for p in ps[1:] for c in cs[1:]]
     if cfg[0] == "mbox" and cfg[1] == "coro":
         # the coroutines ignore try_s / willing: always attempting, always willing
@@ -411,14 +543,23 @@ def trace_task(task):
 # ---------------------------------------------------------------------------------------------------
 
 
-def monitor_step(pending, o0, o1, tok, payload):
+def monitor_init(o0):
+    """the power-up observation: every view defined and clear"""
+    if None in o0[:8]:
+        return "an observable is undefined ('U'/'X') at power-up: " + ", ".join(n for n, v in zip(OBS[:8], o0[:8]) if v is None)
+    if o0[0] or o0[2] or o0[4]:
+        return "the flag is observed set at power-up"
+    return None
+
+
+def monitor_step(pending, o0, o1, tok, payload, relax=False):
     """pending: tuple of payloads accepted and not yet received.  o0/o1: observation before / after the clock.
     -> (pending', violation | None)"""
     p, c = tok.split(":")
     accepted = o0[6] != o1[6]
     received = o0[7] != o1[7]
     if None in o1[:8]:
-        return pending, "an observable is undefined ('U'/'X')"
+        return pending, "an observable is undefined ('U'/'X'): " + ", ".join(n for n, v in zip(OBS[:8], o1[:8]) if v is None)
     for a, b, who in ((0, 1, "producer"), (2, 3, "consumer"), (4, 5, "outside")):
         if o1[a] == o1[b]:
             return pending, f"is_set and is_clear agree in the {who} view"
@@ -429,21 +570,21 @@ def monitor_step(pending, o0, o1, tok, payload):
         pending = pending[1:]
         if payload and o1[8] != exp:
             return pending, f"received payload {o1[8]} where {exp} was sent (corrupted / reordered)"
-        if not (c == "w"):
+        if not (c == "w" or (relax and c == "u")):
             return pending, "receive although the consumer was not willing / did not tick"
         if not o0[2]:
             return pending, "receive although the consumer did not observe the flag set"
     if accepted:
-        if p[0] != "s":
+        if p[0] != "s" and not (relax and p[0] == "i"):
             return pending, "accept although the producer did not attempt / did not tick"
         if not o0[1]:
             return pending, "accept although the producer did not observe the flag clear"
         if pending:
             return pending, "set accepted while the previous event is not yet consumed (event lost)"
-        pending = pending + (int(p[1:]),)
-    elif p[0] == "s" and o0[1]:
+        pending = pending + (int(p[1:]) if p[0] == "s" else 0,)
+    elif p[0] == "s" and o0[1] and not relax:
         return pending, "attempt while the producer observes clear was not accepted"
-    if c == "w" and o0[2] and not received:
+    if c == "w" and o0[2] and not received and not relax:
         return pending, "willing consumer observed the flag set but did not receive"
     if pending and o1[1]:
         return pending, "producer observes clear although the consumer has not cleared the event"
@@ -458,6 +599,10 @@ def check_property(graph, cfg, toks):
     """model-check the monitor on the state graph.  -> (schedule, message) of a shortest violation | None"""
     obs, edges = graph["obs"], graph["edges"]
     payload = has_payload(cfg)
+    relax = relaxed(cfg)
+    v0 = monitor_init(obs[0])
+    if v0:
+        return [], v0
     start = (0, ())
     prev = {start: None}
     queue = deque([start])
@@ -468,8 +613,8 @@ def check_property(graph, cfg, toks):
             m = edges[n].get(tok)
             if m is None:
                 continue
-            pend2, viol = monitor_step(pend, obs[n], obs[m], tok, payload)
-            if viol is None and obs[n][0] and cfg[0] == "flag":
+            pend2, viol = monitor_step(pend, obs[n], obs[m], tok, payload, relax)
+            if viol is None and obs[n][0] and (cfg[0] == "flag" or (cfg[0] == "site" and cfg[1].startswith("flag"))):
                 # set-while-set is a no-op: same successor state as without the attempt
                 p, c = tok.split(":")
                 if p[0] == "s" and edges[n].get(f"i:{c}") != m:
@@ -482,9 +627,11 @@ def check_property(graph, cfg, toks):
                 queue.append(nxt)
     # liveness: from every reachable state, `i:w` (both tick, consumer willing, no new attempt) drains the event
     # and gives the flag back to the producer within txd + rxd + 3 steps
-    drain = "-:-" if False else ("i:w" if "i:w" in toks else None)
+    drain = "i:w" if "i:w" in toks else None
+    if relax and cfg[1].startswith("exec"):
+        drain = None  # a producer coroutine that is already inside exec() sends again without a new attempt
     if drain is not None:
-        bound = cfg[2] + cfg[3] + 3
+        bound = cfg[2] + cfg[3] + 3 + (6 if relax else 0)
         for cur in list(prev):
             n, pend = cur
             for _ in range(bound):
@@ -575,7 +722,7 @@ def check_correspondence(graphs, cfgs, tokss):
 
 
 def gen_schedule(rng, cfg, length, dw):
-    same = cfg[0] == "same"
+    same = is_same(cfg)
     coro = cfg[0] == "mbox" and cfg[1] == "coro"
     rp, rc = rng.choice([(1.0, 1.0), (0.5, 0.5), (0.9, 0.2), (0.2, 0.9), (0.1, 1.0), (1.0, 0.1), (0.6, 0.7)])
     pt, pw = rng.choice([(0.5, 0.5), (0.9, 0.9), (1.0, 1.0), (0.2, 0.8), (0.8, 0.2), (1.0, 0.3), (0.3, 1.0)])
@@ -603,14 +750,20 @@ def gen_schedule(rng, cfg, length, dw):
 def check_trace(cfg, toks, trace, model_line):
     """-> (index, message, is_property_violation) | None"""
     payload = has_payload(cfg)
+    relax = relaxed(cfg)
     pend = ()
     cells = model_line.split(";")
     acc = rcv = 0
+    v0 = monitor_init(trace[0])
+    if v0:
+        return -1, v0, True
     for k, tok in enumerate(toks):
         o0, o1 = trace[k], trace[k + 1]
-        pend, viol = monitor_step(pend, o0, o1, tok, payload)
+        pend, viol = monitor_step(pend, o0, o1, tok, payload, relax)
         if viol:
             return k, viol, True
+        if relax:
+            continue  # start/exec protocol: no Lean tie (latched attempts / willingness), monitor only
         acc += o0[6] != o1[6]
         rcv += o0[7] != o1[7]
         f = cells[k].split(" ")
@@ -642,6 +795,35 @@ def shrink(toks, fails):
 # ---------------------------------------------------------------------------------------------------
 
 
+AFTER_SITES = ("end", "nested", "after")
+
+
+def role_after_observation(c, msg):
+    """KNOWN class (findings.d/C15.json): a delayed flag is observed in the process body and the first set() / clear()
+    of that side is only converted afterwards, in the end-of-context phase: the `*_indirect` driver of the body
+    observation is emitted before the role of the context is known and shows the outside view.  -> 'producer' |
+    'consumer' | None.  Only the two symptoms of exactly this cause are matched, anything else stays a violation."""
+    if c[0] in ("site", "samesite"):
+        what, ps, cs, obs = c[1].split("|")
+        if obs != "body":
+            return None
+        p_aff, c_aff = ps in AFTER_SITES, cs in AFTER_SITES
+    elif c[0] == "exec":
+        ps, cs = c[1].split("|")
+        p_aff, c_aff = False, cs == "exec"   # make_after; the producer executor is a before-executor
+    else:
+        return None
+    if p_aff and c[2] != 0 and msg.startswith(("producer observes clear although", "set accepted while the previous")):
+        return "producer"
+    if c_aff and c[3] != 0 and msg.startswith(("consumer observes set although", "receive without a pending")):
+        return "consumer"
+    return None
+
+
+def same_sig(c):
+    return "same-context-delay-accepted:" + (c[1].split(":")[1] if c[0] == "same" else c[1])
+
+
 def cfg_name(cfg):
     return f"{cfg[0]}:{cfg[1]}:tx={cfg[2]}:rx={cfg[3]}"
 
@@ -667,11 +849,29 @@ def run(ctx: Ctx):
             cfgs.append(("mbox", v, t, r))
     for v in SAME:
         cfgs.append(("same", v, 0, 0))
+    # WHERE the operations are issued from: every non-body site meets every delay configuration on the producer
+    # side (SyncFlag) and on the consumer side (Mailbox); partner site and placement of the observation rotate
+    for k, (t, r) in enumerate(delays):
+        for i, st in enumerate(SITES[1:], start=1):
+            obs = "in" if (k + i) % 2 else "body"
+            a = ("site", f"flag|{st}|{SITES[(i + k) % 6]}|{obs}", t, r)
+            b = ("site", f"mbox|{SITES[(i + k + 3) % 6]}|{st}|{'body' if obs == 'in' else 'in'}", t, r)
+            cfgs += [a if (k + i) % 2 == 0 else b] if ctx.quick else [a, b]
+    same_sites = [("body", "end"), ("end", "body"), ("after", "before"), ("helper", "nested"), ("before", "after"), ("nested", "end")]
+    for j, (ps, cs) in enumerate(same_sites):
+        for what in ("flag", "mbox"):
+            cfgs.append(("samesite", f"{what}|{ps}|{cs}|{'in' if j % 2 else 'body'}", 0, 0))
+    # public start/exec protocol (the consumer / producer side is first used inside an executor)
+    for (t, r) in ((0, 0), (1, 1), (2, 2), (0, 2), (3, 1), (2, 0)) if ctx.quick else delays:
+        for v in ("body|exec", "exec|body", "exec|exec"):
+            cfgs.append(("exec", v, t, r))
     # same-context use with a non-zero delay must be rejected ("std.SyncFlag with delay cannot be set and
     # cleared in the same context"); every accepted one is explored like the others
     same_delay = [("same", v, t, r) for v in SAME for (t, r) in ((0, 1), (1, 0), (1, 1), (0, 2), (2, 0))]
+    same_delay += [("samesite", f"flag|{ps}|{cs}|{'in' if j % 2 else 'body'}", t, r)
+                   for j, (ps, cs) in enumerate(same_sites[:4]) for (t, r) in ((0, 1), (1, 0), (2, 2))]
     DWG, DWR = 2, 4
-    wide = [c for c in cfgs if has_payload(c)]
+    wide = [c for c in cfgs if has_payload(c) and c[0] in ("mbox", "same")]
     srcs = [(make_source(c, DWG), "W") for c in cfgs + same_delay] + [(make_source(c, DWR), "W") for c in wide]
     import time
     t0 = time.time()
@@ -702,7 +902,7 @@ def run(ctx: Ctx):
     payloads = (1, 2)
     explore = ok_cfgs + accepted_bad
     tokss = {c: alphabet(c, payloads) for c in explore}
-    res = fork_map(explore_task, [(cg[c]["vhdl"], tokss[c], c[0] == "same", 20000) for c in explore], fresh=False, chunk=1)
+    res = fork_map(explore_task, [(cg[c]["vhdl"], tokss[c], is_same(c), 20000) for c in explore], fresh=False, chunk=1)
     timing["graphs"] = round(time.time() - t0, 1)
     graphs = {}
     for c, r in zip(explore, res):
@@ -716,6 +916,7 @@ def run(ctx: Ctx):
     n_states = sum(len(g["obs"]) for g in graphs.values())
     n_edges = sum(len(e) for g in graphs.values() for e in g["edges"])
     prop_bad = {}
+    known_bad = set()
     for c, g in graphs.items():
         v = check_property(g, c, tokss[c])
         for n, e in enumerate(g["edges"]):
@@ -723,31 +924,38 @@ def run(ctx: Ctx):
                 ev = (g["obs"][n][6] != g["obs"][m][6]) or (g["obs"][n][7] != g["obs"][m][7])
                 ctx.case(key=(c, n, tok), nontrivial=ev, kind=f"graph:{c[0]}:{c[1]}")
         if v:
-            prop_bad[c] = v
             sched, msg = v
             sig = f"{cfg_name(c)}:{' '.join(sched)}"
             if c[0] == "mbox" and c[1] == "noguard" and msg.startswith("received payload"):
                 # one class for all delays: Mailbox.send while the flag is set replaces the pending payload
                 sig = "mailbox-send-while-set-overwrites-pending-payload"
             if c in accepted_bad:
-                sig = f"same-context-delay-accepted:{c[1].split(':')[1]}"
+                sig = same_sig(c)
                 msg = "use that must be rejected is accepted and then: " + msg
-            ctx.report(sig, f"{cfg_name(c)}: after the schedule `{' '.join(sched)}` (P:C per clock; P = - no tick | i idle | s<v> attempt, "
-                            f"C = - | u unwilling | w willing): {msg}",
-                       {"mode": "schedule", "config": list(c), "dw": DWG, "schedule": sched, "message": msg, "source": make_source(c, DWG)})
+            side = role_after_observation(c, msg)
+            if side:
+                sig = f"role-established-after-observation:{side}"
+            new = ctx.report(sig, f"{cfg_name(c)}: after the schedule `{' '.join(sched)}` (P:C per clock; P = - no tick | i idle | s<v> attempt, "
+                                  f"C = - | u unwilling | w willing): {msg}",
+                             {"mode": "schedule", "config": list(c), "dw": DWG, "schedule": sched, "message": msg, "source": make_source(c, DWG)})
+            if new:
+                prop_bad[c] = v
+            else:
+                known_bad.add(c)
     for c in accepted_bad:
         if c in graphs and c not in prop_bad:
-            ctx.report(f"same-context-delay-accepted:{c[1].split(':')[1]}",
+            ctx.report(same_sig(c),
                        f"{cfg_name(c)} is accepted although SyncFlag documents that set and clear in one context need delay 0 "
                        "(no failing schedule found on the state graph)",
                        {"mode": "schedule", "config": list(c), "dw": DWG, "schedule": [], "source": make_source(c, DWG),
                         "correspondence": "model `accepts`"}, no_failing_input=True)
     ctx.obligation("exactly-once monitor holds on the complete reachable state graph of every emitted design (all schedules over the alphabet; safety + drain liveness)",
-                   not prop_bad, detail=f"{len(graphs)} designs, {n_states} states, {n_edges} transitions, {len(prop_bad)} designs violate")
+                   not prop_bad, detail=f"{len(graphs)} designs, {n_states} states, {n_edges} transitions, {len(prop_bad)} designs violate, "
+                                        f"{len(known_bad)} designs reproduce a known finding (excluded from the ties below)")
     ctx.exhaustive = all(not g["limit"] for g in graphs.values())
 
     timing["monitor"] = round(time.time() - t0, 1)
-    corr_cfgs = [c for c in ok_cfgs if c in graphs]
+    corr_cfgs = [c for c in ok_cfgs if c in graphs and not relaxed(c) and c not in known_bad]
     bad, pairs = check_correspondence(graphs, corr_cfgs, tokss)
     for c, (sched, exp, got) in bad.items():
         if c in prop_bad:
@@ -767,10 +975,13 @@ def run(ctx: Ctx):
     length = ctx.scale(600, 2000)
     tasks, reqs, meta = [], [], []
     for c in ok_cfgs:
-        for k in range(n_seq):
+        extra_kind = c[0] in ("site", "samesite", "exec")
+        for k in range(1 if (extra_kind and ctx.quick) else n_seq):
             L = length if k else max(60, length // 10)
-            toks = gen_schedule(rng, c, L, DWR)
-            tasks.append((cr[c]["vhdl"], toks, c[0] == "same"))
+            if extra_kind and ctx.quick:
+                L = 300
+            toks = gen_schedule(rng, c, L, DWR if c in wide else DWG)
+            tasks.append((cr[c]["vhdl"], toks, is_same(c)))
             reqs.append(f"run {'g' if guard_of(c) else 'n'} {c[2]} {c[3]} " + " ".join(model_token(t) for t in toks))
             meta.append((c, toks))
     model = lean_io.query("C15", reqs)
@@ -788,7 +999,7 @@ def run(ctx: Ctx):
                  sample={"config": cfg_name(c), "schedule": toks[:16], "events_delivered": nrcv})
         ctx.dist[f"delivered:{min(nrcv // 10 * 10, 200)}+"] += 1
         r = check_trace(c, toks, trace, mo)
-        if r is None or c in prop_bad or c in bad:
+        if r is None or c in prop_bad or c in bad or c in known_bad:
             continue
         rnd_bad += 1
         if rnd_bad > 3:
@@ -797,18 +1008,19 @@ def run(ctx: Ctx):
         G = "g" if guard_of(c) else "n"
 
         def fails(cand, c=c, vhdl=task[0], G=G, is_prop=is_prop):
-            tr = trace_task((vhdl, cand, c[0] == "same"))
+            tr = trace_task((vhdl, cand, is_same(c)))
             mo2 = lean_io.query("C15", [f"run {G} {c[2]} {c[3]} " + " ".join(model_token(t) for t in cand)])[0]
             r2 = check_trace(c, cand, tr, mo2)
             return r2 is not None and r2[2] == is_prop
 
         small = shrink(toks[: k + 1], fails)
-        tr = trace_task((task[0], small, c[0] == "same"))
+        tr = trace_task((task[0], small, is_same(c)))
         mo2 = lean_io.query("C15", [f"run {G} {c[2]} {c[3]} " + " ".join(model_token(t) for t in small)])[0]
         k2, msg2, _ = check_trace(c, small, tr, mo2)
         ctx.report(f"{'rand' if is_prop else 'corr'}:{cfg_name(c)}:{' '.join(small)}",
                    f"{cfg_name(c)} (4-bit payload): after `{' '.join(small)}` at clock {k2}: {msg2}",
-                   {"mode": "schedule", "config": list(c), "dw": DWR, "schedule": small, "message": msg2, "source": make_source(c, DWR),
+                   {"mode": "schedule", "config": list(c), "dw": (DWR if c in wide else DWG), "schedule": small, "message": msg2,
+                    "source": make_source(c, DWR if c in wide else DWG),
                     **({} if is_prop else {"correspondence": "emitted design = CohdlVerif.C15.run"})},
                    no_failing_input=not is_prop)
     ctx.obligation("random schedules: traces = CohdlVerif.C15.run and event logs satisfy the exactly-once monitor",
@@ -828,12 +1040,12 @@ def replay(ctx, data):
     c = compile_many([(src, "W")])[0]
     if not c["ok"]:
         print("wrapper rejected:", c["errtype"], c["err"][-200:])
-        exp = lean_io.query("C15", [f"accepts {1 if cfg[0] == 'same' else 0} {cfg[2]} {cfg[3]}"])[0]
+        exp = lean_io.query("C15", [f"accepts {1 if is_same(cfg) else 0} {cfg[2]} {cfg[3]}"])[0]
         print("model accepts:", exp)
         return 0 if exp == "0" else 1
-    if cfg[0] == "same" and (cfg[2] or cfg[3]):
+    if is_same(cfg) and (cfg[2] or cfg[3]):
         print("same-context use with a delay is accepted (must be rejected)")
-    trace = trace_task((c["vhdl"], toks, cfg[0] == "same"))
+    trace = trace_task((c["vhdl"], toks, is_same(cfg)))
     G = "g" if guard_of(cfg) else "n"
     mo = lean_io.query("C15", [f"run {G} {cfg[2]} {cfg[3]} " + " ".join(model_token(t) for t in toks)])[0] if toks else ""
     print("schedule:", " ".join(toks))
@@ -841,15 +1053,15 @@ def replay(ctx, data):
     for k, o in enumerate(trace):
         print(f"  clock {k:3d} {toks[k - 1] if k else 'init':8s}", " ".join(fmt(x) for x in o))
     print("model   :", mo)
-    res = check_trace(cfg, toks, trace, mo) if toks else None
-    if cfg[0] == "same" and (cfg[2] or cfg[3]) and res is not None and not res[2]:
+    res = check_trace(cfg, toks, trace, mo)
+    if is_same(cfg) and (cfg[2] or cfg[3]) and res is not None and not res[2]:
         res = None  # the model rejects this use: only the exactly-once monitor applies to the accepted design
     if res is None and toks:
         # liveness replays end with the drain steps: the flag must be released at the end
         o = trace[-1]
         if not (o[1] and not o[2]) and all(t == "i:w" for t in toks[-(cfg[2] + cfg[3] + 3):]):
             res = (len(toks), "flag not released after the drain steps (liveness)", True)
-    if cfg[0] == "same" and (cfg[2] or cfg[3]):
+    if is_same(cfg) and (cfg[2] or cfg[3]):
         res = res or (0, "accepted", True)
     print("result  :", res)
     return 0 if res is None else 1
